@@ -15,6 +15,12 @@ fn main() {
             eprintln!("panic: {info}");
         }
     }));
+    {
+        let a: Vec<String> = std::env::args().collect();
+        if a.len() == 3 && a[1] == "__crash_child" {
+            std::process::exit(props::c12::child_main(&a[2]));
+        }
+    }
     world::sweep_stale_scratch();
     logcap::install();
     let args = match runner::parse_args() {
@@ -35,6 +41,7 @@ fn main() {
         "C09" => props::store::main(&args, props::store::Focus::Rollback),
         "C10" => props::store::main(&args, props::store::Focus::Differential),
         "C11" => props::c11::main(&args),
+        "C12" => props::c12::main(&args),
         "C16" => props::c16::main(&args),
         "C20" => props::c20::main(&args),
         "C18" => props::c18::main(&args),
